@@ -43,17 +43,17 @@ package packets
 
 //@ func EncodeShortTopic
 //@   nopanic [C21]
-//@   ensures [C21,C02] two: len(topic) == 2 ==> result == (uint16(topic[0]) << 8) | uint16(topic[1])
+//@   ensures [C21,C02,C32] two: len(topic) == 2 ==> result == (uint16(topic[0]) << 8) | uint16(topic[1])
 //@ func DecodeShortTopic
 //@   nopanic [C21]
 // (the gateway properties that translate short topic IDs rest on this clause: C01 PUBLISH, C03 SUBSCRIBE/UNSUBSCRIBE)
-//@   ensures [C21,C01,C03] name: len(result) == 2 && result[0] == uint8(topicAlias >> 8) && result[1] == uint8(topicAlias)
+//@   ensures [C21,C01,C03,C32] name: len(result) == 2 && result[0] == uint8(topicAlias >> 8) && result[1] == uint8(topicAlias)
 
 // short-topic bijection (ghost lemma functions in zz_lemmas_verif.go)
 //@ func lemmaShortTopicIDRoundtrip
 //@   nopanic [C21]
-//@   ensures [C21] id_roundtrip: result == id
+//@   ensures [C21,C32] id_roundtrip: result == id
 //@ func lemmaShortTopicNameRoundtrip
 //@   nopanic [C21]
 //@   requires [C21] two_bytes: len(name) == 2
-//@   ensures [C21] name_roundtrip: result == name
+//@   ensures [C21,C32] name_roundtrip: result == name
